@@ -531,6 +531,7 @@ class Program:
             from .canon import canonicalise_names
             self.renamed = canonicalise_names(j, bl)
         self.inlined_helpers = inline_unknown_helpers(j, set(bl["fns"])) if bl is not None else []
+        self.inlined_pairs = [tuple(x) for x in j.get("_inlined_pairs", [])]      # (caller, helper expanded into it)
         self.fns = {}
         for fj in j["fns"]:
             f = Fn(fj, self)
